@@ -80,7 +80,7 @@ CHECKS["C12"] = {
     "technique": "rapid-generated base scenarios; a connection reset (preceded by a partial delivery cutting a record in a chosen offset class) or a session Close (optionally racing with other calls) is injected at EVERY operation position of each base scenario; teardown oracle at quiescence (synctest bubble)",
     "level_text": "For each generated base scenario the fault is enumerated over every operation boundary and, per fault spec, over connection x offset class (record boundary, TLS header, frame header, payload, tag); after each injection the interpreter drains the network and checks prefix-only delivery, that every parked Read/Write/Accept/Close returned, that OpenStream is refused, that every connection end was closed, and (before the fault) that the active-stream counter equals the model count at every quiescent step; inactivity-timer phases are explored on the virtual clock. A bubble that ends up permanently stuck with a goroutine queued on a lock (which stops the virtual clock) is recognised by a real-time watchdog from two identical goroutine dumps and judged by the same post-fault rules evaluated on the harness' bookkeeping (violation only if a fault or session close had been injected and a blocked call has not returned or a connection was not closed); otherwise exit 2. At layer 3 (real client and server code over the test network) connection attempts fail in six ways during session set-up, including a reply that fails only after sibling connections have joined and a sibling whose reply is delayed past that failure; the established session must either work on six probe streams or be closed. A real-time sub-check closes streams from both ends at the same moment (50-500 per batch, a canary stream stays open) and requires both sessions to count exactly the canary once settled. Another closes the session (Close on either side, connection reset) while 1..1064 peer-opened streams wait un-accepted: the teardown must complete, a late Accept must return, nothing may panic; the peer-initiated case with an overflowing accept queue is the recorded known finding F-C12f (excluded by construction: the application resumes accepting; reproduced once per run).",
     "level_note": "Schedules inside a step are the Go runtime's; under back pressure only one writer per stream is generated (a parked writer holds the stream mutex, which synctest cannot treat as durably blocked).",
-    "rule": "base scenario: rapid-drawn config (ordered/unordered, 1..8 conns or singleplex, optional bounded buffers) and <=30 ops; faults: 1..3 specs x every position 0..len(ops). Non-trivial = fault strictly inside a record, or frames had arrived out of order before it, or a goroutine was parked in Read/Write at the fault; distinct = distinct scenarios (each standing for (len(ops)+1) x specs executions, counted in evaluations).",
+    "rule": "base scenario: rapid-drawn config (ordered/unordered, 1..8 conns or singleplex, optional bounded buffers) and <=30 ops; faults: 1..3 specs x every position 0..len(ops). Non-trivial = fault strictly inside a record, or frames had arrived out of order before it, or a goroutine was parked in Read/Write at the fault; distinct = distinct scenarios (each standing for (len(ops)+1) x specs executions, counted in evaluations). UnreadBacklog: {1,8,20,40,70} MiB written to a stream nobody reads, a reader parked on a second stream, 1..3 connections, trigger from {reset, close-receiver, close-sender}; non-trivial = >=8 MiB.",
     "assumptions": ["a reset is seen by both ends; EOF is seen after in-flight bytes were delivered (TCP-like)", "the code under test does not complete a teardown through a timer while other goroutines queue on its locks (wedge verdicts)"],
     "jobs": [
         {"pkg": MUX, "run": "^TestVerif_C12_Faults$", "checks": {"quick": 500, "thorough": 40000}, "shards": {"thorough": 16}, "timeout": {"quick": 300}},
@@ -129,7 +129,7 @@ CHECKS["C19"] = {
     "technique": "rapid-generated traffic patterns over 1..3 sessions x 1..4 connections x 1..4 streams of one limited user (valve obtained through userPanel.GetUser / ActiveUser.GetSession), free-running on the synctest virtual clock; every interval between two wire events is checked against the token-bucket bound in O(n)",
     "level_text": "Time is virtual, so every send/receive event has an exact timestamp; for every pair of events (a,b) the bytes in [a,b] must be <= 1.01*rate*(b-a) + one second of burst + one message, across all sessions and connections of the user - sessions admitted one after the other or simultaneously by separate goroutines (GetUser + GetSession each, as the dispatcher does) while the user is not active yet; 30 % of the cases are deep backlogs at 1-20 kB/s with 16+ queued senders and frames worth many seconds of allowance; backlogged senders must reach >= 0.99*rate*T minus burst/in-flight terms.",
     "level_note": "Upload direction is measured where data becomes readable on the server-side streams (payload bytes, after the limiter); download direction at the server's connection writes (the bytes the limiter counted). One writer per stream and direction.",
-    "rule": "rapid draws rates from 1 kB/s..10 MB/s, topology, 5..60 virtual seconds and 1..8 writers (size patterns 37 B..16132 B, backlogged or bursty with pauses). Non-trivial = connections of >=2 sessions sent within the same virtual second; distinct = distinct scenarios.",
+    "rule": "rapid draws rates from 1 kB/s..10 MB/s, topology, 5..60 virtual seconds and 1..8 writers (size patterns 37 B..16132 B, backlogged or bursty with pauses). Non-trivial = connections of >=2 sessions sent within the same virtual second; distinct = distinct scenarios. Valve: rx/tx rates 10^3..4x10^9 B/s (round, round+odd remainder, arbitrary), 1..4 callers per direction asking for 1/60/1400/16401-byte admissions for 50 ms..4 s of virtual time (<=6000 each), optional idle start; every case non-trivial.",
     "assumptions": ["juju/ratelimit runs on the bubble's virtual clock (time.Now/time.Sleep)", "the bound includes one maximal message because a wire write is atomic"],
     "jobs": [
         {"pkg": SERVER, "run": "^TestVerif_C19_Rates$", "checks": {"quick": 100, "thorough": 8000}, "shards": {"thorough": 16}, "timeout": {"quick": 300}},
@@ -143,7 +143,7 @@ CHECKS["C11"] = {
     "technique": "exhaustive single-bit flips over whole messages of 5 small sizes (all header/tag bits + sampled payload bits for large ones) x 3 AEAD methods x padded/unpadded; rapid-generated multi-byte corruptions, truncations, extensions, foreign keys/methods and garbage against deobfuscate and a live Session; native go fuzzing in the thorough tier",
     "level_text": "Every variant of a genuine message must be rejected by the codec and, fed to a live session, must leave stream table, counters and accept queue untouched while a following valid frame is still delivered in order; garbage of 0..20480 bytes must never panic under any method. Garbage records of every length of interest (0..48, the record-size landmarks, the last 64 below the receive-buffer size) are also sent on a connection of the direct transport between two genuine frames: the second must be delivered and the session must stay open. A real-time sub-check hands the genuine frames of 1-6 streams to the session from 1-8 goroutines at once (the connections' receiving goroutines), interleaved with random bytes, bit-flipped, truncated, extended and foreign-key frames: every reader must get exactly its stream's bytes, no foreign stream may appear, nothing may stall or panic. Modifications confined to wire bytes 12/13 are the recorded known finding and are excluded by construction (executed, counted, reported).",
     "level_note": "Key and nonce space are sampled. The known finding F-C11 (bytes 12/13 unauthenticated) is listed in known_findings.json; any other accepted modification is a VIOLATION.",
-    "rule": "Flips: for payload lengths 1,2,17,100,270 every bit of every byte position (padded seq 2 and unpadded seq 9), for 1500 and 16132 all 112 header bits, all 128 tag bits and 200 payload positions; x aes-256-gcm, chacha20-poly1305, aes-128-gcm. Random: rapid-drawn kind in {multi-byte xor, truncate 1..64, extend 1..64, other key, other method, garbage 0..20480 (all four methods), flip}. Every case non-trivial; distinct = distinct (method,size,position,bit) resp. scenarios.",
+    "rule": "Flips: for payload lengths 1,2,17,100,270 every bit of every byte position (padded seq 2 and unpadded seq 9), for 1500 and 16132 all 112 header bits, all 128 tag bits and 200 payload positions; x aes-256-gcm, chacha20-poly1305, aes-128-gcm. Random: rapid-drawn kind in {multi-byte xor, truncate 1..64, extend 1..64, other key, other method, garbage 0..20480 (all four methods), flip}. Every case non-trivial; distinct = distinct (method,size,position,bit) resp. scenarios. Transport: direct-transport records and WebSocket messages of every length of interest, garbage between two genuine frames and as the first message of a fresh connection.",
     "assumptions": ["x/crypto and crypto/aes AEAD implementations are correct"],
     "jobs": [
         {"pkg": MUX, "run": "^TestVerif_C11_Flips$"},
@@ -159,7 +159,7 @@ CHECKS["C20"] = {
     "technique": "rapid-generated option presence masks and values rendered both as JSON file and as key=value; string (with the \\= escapes of plugin hosts); oracle = table transcribed from README.md + cross-syntax equality; random strings for the no-crash part",
     "level_text": "Each generated configuration is parsed through both front ends (results must be equal) and processed; every documented option (NumConn<=0, KeepAlive seconds, StreamTimeout default, Transport/BrowserSig selection observed through the transport actually created, CDN url, AlternativeNames filtering, encryption names) is compared with an independent transcription of the README; incomplete/invalid configurations must yield an error, arbitrary strings must not panic. BrowserSig is checked in effect on every connection attempt of sessions set up under connection faults (each ClientHello must have the shape of a fresh hello of the configured browser; a failed chrome attempt may be retried as firefox, as the client documents). StreamTimeout is also checked in effect on the virtual clock: the value parsed from either syntax is handed to RouteTCP over a test network; a proxy connection whose first data comes before the limit must stay usable in both directions at any later time (up to 5x the period), one that stays silent longer must be closed.",
     "level_note": "The README transcription in harness/internal__client/c20_test.go (c20Table) is the trusted oracle; values containing ';', '\"' or '\\\\' are outside the option-string domain (the front end has no escaping for them once unescaped) and are not generated.",
-    "rule": "rapid draws presence (p=0.4..0.95 per option) and representative values for the 19 options incl. NumConn in {-7,-1,0,1,2,4,8}, KeepAlive in {-5,0,1,15,30,3600}, mixed-case names, base64 keys with '=' padding, empty alternative names; every case is non-trivial (both syntaxes + processing); distinct = distinct (presence mask, escaping) pairs. ServerNames: layer-3 scenarios with ServerName from {random, RANDOM, rAnDoM, www.bing.com, a.example.org, randomised.example} and NumConn 0..6; non-trivial = random name over >=3 connections.",
+    "rule": "rapid draws presence (p=0.4..0.95 per option) and representative values for the 19 options incl. NumConn in {-7,-1,0,1,2,4,8}, KeepAlive in {-5,0,1,15,30,3600}, mixed-case names, base64 keys with '=' padding, empty alternative names; every case is non-trivial (both syntaxes + processing); distinct = distinct (presence mask, escaping) pairs. ServerNames: layer-3 scenarios with ServerName from {random, RANDOM, rAnDoM, www.bing.com, a.example.org, randomised.example} and NumConn 0..6; non-trivial = random name over >=3 connections. ProgramNames: ck-client main() with ServerName and 0..4 AlternativeNames from {bing.com, cloudflare.com, github.com, a.example.org, random, RANDOM, Random, randomised.example}, 4..10 proxied connections (singleplex 3 of 4: one session, i.e. one draw, per connection); non-trivial = >=2 distinct names seen.",
     "assumptions": ["README.md client section is the specification"],
     "jobs": [
         {"pkg": CLIENT, "run": "^TestVerif_C20_Config$", "checks": {"quick": 6000, "thorough": 600000}, "shards": {"thorough": 16}},
@@ -219,7 +219,7 @@ CHECKS["C10"] = {
     "technique": "rapid-generated full client<->server rigs (all browser signatures, encryption methods, NumConn 0..8, traffic scripts, closes, virtual-clock latencies) with a passive tap on every connection; oracle = independent TLS record / ClientHello / ServerHello parser in /verif/kit/tlsref.go",
     "level_text": "Every byte either side ever wrote on every client<->server connection of the generated sessions is parsed: the client's first flight must be exactly one handshake record (0x0301) with a structurally consistent ClientHello (all length fields add up, 32-byte session id, one server name equal to the configured one or a valid random host name, 32-byte X25519 share); the server must answer ServerHello (session id echoed, consistent) + ChangeCipherSpec + application data; everything after is application-data records (type 23, version 3.3) of length 1..16640 with no trailing partial record.",
     "level_note": "Direct mode only (as the property states). The traffic is whatever the C01 full-rig scripts produce, including stream and session closing notices and inactivity closures.",
-    "rule": "rapid draws a client configuration and 1..8 proxy connections with scripts; evaluations counts parsed connections; non-trivial = a rig in which >=1 connection carried data records in both directions after the handshake; distinct = distinct scenarios.",
+    "rule": "rapid draws a client configuration and 1..8 proxy connections with scripts; evaluations counts parsed connections; non-trivial = a rig in which >=1 connection carried data records in both directions after the handshake; distinct = distinct scenarios. Program: ck-client main() with NumConn {0,0,1,3}, any method, ServerName/AlternativeNames from fixed names and the keyword random, 2..6 proxied connections with 1..3 chunks; the client's byte stream of every connection is parsed; non-trivial = >=2 application-data records.",
     "assumptions": ["tlsref.go implements RFC 8446 framing correctly"],
     "jobs": [
         {"pkg": SERVER, "run": "^TestVerif_C10_Wire$", "checks": {"quick": 150, "thorough": 10000}, "shards": {"thorough": 16}, "timeout": {"quick": 600}},
@@ -233,7 +233,7 @@ CHECKS["C08"] = {
     "technique": "rapid-generated presentation histories (new / verbatim replay / key-less altered copy / N concurrent presentations / clock advance) against one server State whose replay-cache cleaner runs on the synctest virtual clock; history invariant: at most one acceptance per sealed identity block",
     "level_text": "Genuine first packets are captured from the real client transports (direct ClientHello for three browser signatures, WebSocket GET through a TLS shim); histories place replays and altered copies (top bit of the ephemeral key, other unauthenticated bytes) at generated times, in particular just before and after the 12 h clean-ups while the packet's timestamp is still inside the 180 s window; any second acceptance is a violation.",
     "level_note": "The set of key-less alterations is a fixed list (bit 255 of the ephemeral public key, a cipher-suite byte / extra HTTP header, the server name / request path); goroutine schedules of concurrent presentations are the runtime's.",
-    "rule": "rapid draws 2..30 ops; advances from 1 s..179 s, {181 s, 359 s, 361 s, 1 h, 12 h} and starts 1..170 s before a multiple of 12 h; non-trivial = a replay presented after >=1 cleaner run while the timestamp is still in the window, or an altered copy presented inside the window; distinct = distinct scenarios. flood ops: {50, 3000, 40000, 70000, 140000, 300000} other first packets (the first 2000 through AuthFirstPacket).",
+    "rule": "rapid draws 2..30 ops; advances from 1 s..179 s, {181 s, 359 s, 361 s, 1 h, 12 h} and starts 1..170 s before a multiple of 12 h; non-trivial = a replay presented after >=1 cleaner run while the timestamp is still in the window, or an altered copy presented inside the window; distinct = distinct scenarios. flood ops: {50, 3000, 40000, 70000, 140000, 300000} other first packets (the first 2000 through AuthFirstPacket). variant kinds: bit255, ciphersuite, sni, rewrap (the 96 sealed bytes presented in a genuine first packet of the other transport).",
     "assumptions": ["X25519 public keys are equivalent up to bit 255 (RFC 7748)"],
     "jobs": [
         {"pkg": SERVER, "run": "^TestVerif_C08_Replay$", "checks": {"quick": 800, "thorough": 100000}, "shards": {"thorough": 16}, "timeout": {"quick": 600}},
